@@ -25,3 +25,11 @@ func R(p unsafe.Pointer, size uintptr, site int32)                 {}
 func RP(p unsafe.Pointer, size uintptr, site int32) unsafe.Pointer { return p }
 func WM(m interface{}, site int32)                                 {}
 func RM(m interface{}, site int32)                                 {}
+
+// RunThreads runs the bodies as simulated caller threads (placeholder:
+// sequentially, until the S2 scheduler is in place).
+func (s *Sim) RunThreads(bodies []func()) {
+	for _, b := range bodies {
+		b()
+	}
+}
